@@ -106,6 +106,11 @@ pub fn check_c06(e: &Emitted) -> (Option<Violation>, Option<Parsed>) {
     if kind != want_kind {
         return (v("C06.start_end_bits", kind.name(), format!("status {} from {} but wire kind {}", e.res.class(), e.call.name(), kind.name())), None);
     }
+    // mandatory extension data beyond 255 bytes can not be described to any receiver-side manager (u8 length): the
+    // layout of such a packet is undecided here; everything above (length, buffer, header) has been checked
+    if e.exts.iter().any(|(id, d)| *id < 0x100 && d.len() > 255) {
+        return (None, None);
+    }
     let mut table = sender_table(e.exts, e.ptype);
     // a chain using one mandatory id with two different data lengths (or both as final and non-final)
     // is outside the property's domain ("known" extensions have one length): undecided, never a violation
